@@ -5,7 +5,9 @@
 //! which bytes and reports that as the symbol (`sym`) the Coq model works with.
 use ant_evm::{EncodedPeerId, PaymentQuote, ProofOfPayment, QuotingMetrics, RewardsAddress};
 use ant_networking::verif_hooks::{cmd as hooks, LocalSwarmCmd};
-use ant_networking::NetworkBuilder;
+use ant_networking::{Network, NetworkBuilder};
+use ant_node::verif_hooks_quote as duty;
+use ant_protocol::{storage::ChunkAddress, NetworkAddress};
 use libp2p::identity::{Keypair, PublicKey};
 use libp2p::PeerId;
 use serde_json::{json, Value};
@@ -183,9 +185,101 @@ fn run_history(case: &Value) -> Value {
     })
 }
 
+/// a `Network` handle over plain channels owned by the harness (nothing is polled behind it)
+fn plain_network(self_key: u64) -> (Network, tokio::sync::mpsc::Receiver<LocalSwarmCmd>) {
+    let (net_tx, _net_rx) = tokio::sync::mpsc::channel(8);
+    let (local_tx, local_rx) = tokio::sync::mpsc::channel(8);
+    let kp = key(self_key);
+    (Network::new(net_tx, local_tx, kp.public().to_peer_id(), kp), local_rx)
+}
+
+/// `duty`: the real ant_node quotes_verification over a batch; reports which pairs (by position) were
+/// sent down in LocalSwarmCmd::QuoteVerification, or null when no command was emitted.
+fn run_duty(case: &Value) -> Value {
+    let rt = tokio::runtime::Builder::new_current_thread().enable_all().build().expect("runtime");
+    rt.block_on(async {
+        let nkeys = case.get("nkeys").and_then(|n| n.as_u64()).unwrap_or(6);
+        let self_key = case["self"].as_u64().unwrap();
+        let (network, mut local_rx) = plain_network(self_key);
+        let now = SystemTime::now();
+        let mut descs = vec![];
+        let mut batch = vec![];
+        for item in case["quotes"].as_array().unwrap() {
+            let (q, mut d) = quote_of(&item["q"], now, nkeys);
+            let p = peer_of(&item["peer"]);
+            d["peer"] = json!(hex::encode(p.to_bytes()));
+            descs.push(d);
+            batch.push((p, q));
+        }
+        let before = SystemTime::now();
+        duty::quotes_verification(&network, batch.clone()).await;
+        let after = SystemTime::now();
+        // the command is sent from a spawned task
+        let mut forwarded = Value::Null;
+        for _ in 0..50 {
+            tokio::task::yield_now().await;
+            if let Ok(cmd) = local_rx.try_recv() {
+                forwarded = match cmd {
+                    LocalSwarmCmd::QuoteVerification { quotes } => {
+                        let mut used = vec![false; batch.len()];
+                        let idx: Vec<Value> = quotes.iter().map(|(p, q)| {
+                            let i = batch.iter().enumerate().position(|(i, (bp, bq))| !used[i] && bp == p && bq == q);
+                            if let Some(i) = i { used[i] = true; }
+                            json!(i)
+                        }).collect();
+                        json!(idx)
+                    }
+                    other => json!({"other_cmd": format!("{other:?}")}),
+                };
+                break;
+            }
+        }
+        json!({"quotes": descs, "self_peer": hex::encode(network.peer_id().to_bytes()), "forwarded": forwarded,
+               "now": ts_json(before), "now_after": ts_json(after)})
+    })
+}
+
+/// `storecost`: the real verify_quote_for_storecost of a node holding key `self`
+fn run_storecost(case: &Value) -> Value {
+    let rt = tokio::runtime::Builder::new_current_thread().enable_all().build().expect("runtime");
+    rt.block_on(async {
+        let nkeys = case.get("nkeys").and_then(|n| n.as_u64()).unwrap_or(6);
+        let (network, _rx) = plain_network(case["self"].as_u64().unwrap());
+        let now = SystemTime::now();
+        let (q, d) = quote_of(&case["q"], now, nkeys);
+        let address = match case["addr"].get("chunk") {
+            Some(x) => {
+                let mut a = [0u8; 32];
+                a.copy_from_slice(&hexv(x));
+                NetworkAddress::from_chunk_address(ChunkAddress::new(XorName(a)))
+            }
+            None => NetworkAddress::from_peer(peer_of(&case["addr"]["peer"])),
+        };
+        let addr_xor = address.as_xorname().unwrap_or_default();
+        let before = SystemTime::now();
+        let r = duty::verify_quote_for_storecost(&network, q, &address);
+        let after = SystemTime::now();
+        let code = match &r {
+            Ok(()) => 0,
+            Err(e) if e.contains("InvalidQuoteContent") => 1,
+            Err(e) if e.contains("QuoteExpired") => 2,
+            Err(e) if e.contains("InvalidQuoteSignature") => 3,
+            Err(_) => 9,
+        };
+        json!({"q": d, "addr_xor": hex::encode(addr_xor.0), "code": code, "err": r.err(),
+               "now": ts_json(before), "now_after": ts_json(after)})
+    })
+}
+
 fn run(case: &Value) -> Value {
     if case["op"].as_str() == Some("history") {
         return run_history(case);
+    }
+    if case["op"].as_str() == Some("duty") {
+        return run_duty(case);
+    }
+    if case["op"].as_str() == Some("storecost") {
+        return run_storecost(case);
     }
     let nkeys = case.get("nkeys").and_then(|n| n.as_u64()).unwrap_or(6);
     let now = SystemTime::now();
